@@ -172,6 +172,66 @@ void harness_frame_rules(void) { frame_rules(1); }
 /* the callback set the daemon installs (websocket_peer.c: text_message, close, pong only) */
 void harness_daemon_callbacks(void) { frame_rules(0); }
 
+/* ================================================================== close reason (C18: the validator's use on close frames)
+ * A close frame with a status code and a reason: the reason - exactly the bytes behind the two status bytes, taken as a
+ * complete text - is refused with 1007 iff it is not well-formed UTF-8 per the RFC 3629 reference automaton below;
+ * a well-formed reason leaves the verdict to the status code rules. */
+static int cr_step(int st, uint8_t b)
+{
+	switch (st) {
+	case 0:
+		if (b <= 0x7F) return 0;
+		if (b >= 0xC2 && b <= 0xDF) return 1;
+		if (b == 0xE0) return 4;
+		if (b == 0xED) return 5;
+		if (b >= 0xE1 && b <= 0xEF) return 2;
+		if (b == 0xF0) return 6;
+		if (b == 0xF4) return 7;
+		if (b >= 0xF1 && b <= 0xF3) return 3;
+		return 8;
+	case 1: return (b >= 0x80 && b <= 0xBF) ? 0 : 8;
+	case 2: return (b >= 0x80 && b <= 0xBF) ? 1 : 8;
+	case 3: return (b >= 0x80 && b <= 0xBF) ? 2 : 8;
+	case 4: return (b >= 0xA0 && b <= 0xBF) ? 1 : 8;
+	case 5: return (b >= 0x80 && b <= 0x9F) ? 1 : 8;
+	case 6: return (b >= 0x90 && b <= 0xBF) ? 2 : 8;
+	case 7: return (b >= 0x80 && b <= 0x8F) ? 2 : 8;
+	}
+	return 8;
+}
+#ifndef MAXREASON
+#define MAXREASON 6
+#endif
+void harness_close_reason(void)
+{
+	mk_ws(nd_bool());
+	WS.ws_flags.fin = 1; WS.ws_flags.rsv = 0; WS.ws_flags.opcode = 8; WS.ws_flags.mask = 1;
+	WS.ws_flags.is_fragmented = nd_bool(); WS.ws_flags.frag_opcode = WS.ws_flags.is_fragmented ? (unsigned)nd_range(1, 2) : 0;
+	size_t rl = nd_size();
+	__CPROVER_assume(rl >= 1 && rl <= MAXREASON);
+	size_t len = rl + 2;
+	uint8_t *pay = malloc(len);
+	__CPROVER_assume(pay != 0);
+	for (size_t i = 0; i < MAXREASON + 2; i++) if (i < len) pay[i] = nd_u8();
+	int st = 0;
+	for (size_t i = 0; i < MAXREASON; i++) if (i < rl) st = cr_step(st, pay[2 + i]);
+	int wellformed = st == 0;
+	unsigned code = (unsigned)((pay[0] << 8) | pay[1]);
+	enum websocket_callback_return r = ws_handle_frame(&WS, pay, len);
+	CHECK(r == WS_CLOSED && conn_freed, "C12.close_frame_ends_connection");
+	if (!wellformed) { CHECK(closed_with(1007) && n_close == 0, "C18.malformed_close_reason_refused_with_1007"); REACH("malformed"); }
+	else {
+		CHECK(last_close_code() != 1007, "C18.wellformed_close_reason_not_refused_as_bad_text");
+		if (code_must_be_refused(code)) CHECK(closed_with(1002) && n_close == 0, "C12.invalid_close_code_refused_with_1002");
+		else if (code_must_be_accepted(code)) {
+			CHECK(last_close_code() == 1000 && n_close == 1 && errors_reported == 0 && close_cb_code == code, "C12.valid_close_answered_with_normal_close");
+			REACH("wellformed_accepted");
+		}
+	}
+	free(pay);
+	WITNESS_END();
+}
+
 /* ================================================================== header state machine (RFC 6455 5.2) */
 void harness_header_machine(void)
 {
